@@ -60,7 +60,11 @@ def run(mod, fname, args, summaries=None, cpu='initialised', trace=False, maxpat
 
 def rerun(ex, r):
     """re-execute the path of PathResult r (same decisions) - used after construction-time aliases were installed"""
-    return ex.run_single(ex.last_setup, r.decisions)
+    keys = getattr(r, 'decision_keys', None) if getattr(r, 'keyed', False) else None
+    try:
+        return ex.run_single(ex.last_setup, r.decisions, keys)
+    finally:
+        ex.replay = None
 
 
 def arg_hex(args, model, ufs=None):
